@@ -51,18 +51,6 @@ theorem C12_refine_node (env : Env) (nop : NodeOp) (x : Node) (hg : Good x) (ha 
     (∀ x' r, Node.apply env nop x = some (x', r) → Good x' ∧ (AscAll x → SafeNode nop x → AscAll x')) :=
   ⟨apply_refines env nop hg ha, fun _ _ h => ⟨(apply_inv env nop h).1 hg, fun ha' hs => (apply_inv env nop h).2 hg ha' hs⟩⟩
 
-theorem init_DomInv : DomInv Session.init := by
-  intro d hd
-  simp only [Session.init, List.mem_cons, List.not_mem_nil, or_false, or_self] at hd
-  subst hd
-  simp
-
-theorem init_MapOrdered : MapOrdered Session.init := by
-  intro d hd
-  simp only [Session.init, List.mem_cons, List.not_mem_nil, or_false, or_self] at hd
-  subst hd
-  simp
-
 /-- **Every reachable state satisfies the invariant** — no side condition at all (duplicate keys, maps, any
     interleaving). -/
 theorem C12_inv_all (env : Env) (ops : List Op) : DomInv (run env Session.init ops).1 :=
@@ -77,6 +65,16 @@ theorem C12_all (env : Env) (ops : List Op) (hsafe : SafeRun env Session.init op
     (run env Session.init ops).1.abs = (Containers.run env State.init ops).1 ∧
     (run env Session.init ops).2.map (Option.map Out.eraseL2) = (Containers.run env State.init ops).2 :=
   run_refines env ops Session.init init_DomInv init_MapOrdered hsafe
+
+/-- The side condition read off the SPEC run alone: it suffices that, in the simple model, `RemoveMember` is only
+    ever applied to objects whose keys are pairwise distinct (`SafeRunAbs`; all other commands — `AddMember` of
+    duplicate keys, lookups on objects with duplicates, … — are unrestricted). -/
+theorem C12_all_distinct_removes (env : Env) (ops : List Op) (hsafe : SafeRunAbs env State.init ops) :
+    DomInv (run env Session.init ops).1 ∧
+    (run env Session.init ops).1.abs = (Containers.run env State.init ops).1 ∧
+    (run env Session.init ops).2.map (Option.map Out.eraseL2) = (Containers.run env State.init ops).2 := by
+  have h := C12_all env ops (SafeRun_of_abs env ops Session.init init_DomInv init_MapOrdered hsafe)
+  exact ⟨h.1, h.2.2.1, h.2.2.2⟩
 
 /-- … and the same after every prefix of the sequence (every intermediate state, every intermediate output). -/
 theorem C12_all_prefixes (env : Env) (ops : List Op) (hsafe : SafeRun env Session.init ops) (n : Nat) :
@@ -230,7 +228,7 @@ example : SafeRun env0 Session.init (midOps ++ [.node 0 [] (.find [100])]) := by
 /-- erase of the full range drops the storage and the map -/
 example : infoOf (lastOut (run env0 Session.init (midOps ++ [.node 0 [] (.eraseMem 0 3), .node 0 [] .info]))) =
     some (0, 0, false) := by decide
-/-- a partial erase keeps the capacity but still destroys the map -/
+/-- erasing a sub-range keeps the capacity but still destroys the map -/
 example : infoOf (lastOut (run env0 Session.init (midOps ++ [.node 0 [] (.eraseMem 1 2), .node 0 [] .info]))) =
     some (2, 16, false) := by decide
 
